@@ -15,9 +15,16 @@ potential must equal the transposed Jacobian of the routine that returns the val
   nr_rks / nr_uks                                           nelec = sum_blocks sum_g w_g rho_g,  excsum = sum w rho exc,  vmat = hermi_sum of the per-block
                                                             contractions of w * vxc (+ v1), with contract_wv abstract
   SDMXcontract_ao_to_bas / _bwd                             adjoint pair (shared with C05) — the C link of the SDMX potential
+  CiderNumInt.contract_wv + integrator tail                 (M + M^T + v1) = d(sum_c wv_c rho_c)/dP for density, gradient and kinetic components (real method and
+                                                            _tau_dot_sparse; PySCF sparse helpers by their documented dense meaning); the integrators (also *_nldf and
+                                                            with SDMX) compose vmat from the callee contributions as hermitian sum + kinetic part over all blocks
+  EXXSphGenerator.get_features / get_vxc_                   M + M^T = (dE/dP + dE/dP^T)/2 through the real generator methods and SDMX plan, C contractions by linear contracts
+  SDMXPlan / SDMXIntPlan get_features / get_vxc             get_vxc = HALF of d(sum vxc*feat)/d p_vag (the hermitian sum supplies the other half)
+  LCAOInterpolator(Direct) chains                           interpolate_fwd/bwd, conv2spline/spline2conv, project_orb2grid/grid2orb are adjoint pairs around abstract
+                                                            linear contracts of their C collaborators (shared with C05; bounded shapes)
 
 Assumed links (named, not proved): PySCF's AO evaluation / eval_rho / sparse contractions (contract_wv's callee), libxc, the Gaussian convolution
-integrals and interpolator projections (covered by C05 only for the pairs listed there), EXXSphGenerator internals.
+integrals and the C collaborators of the interpolator chains (covered by C05 only for the pairs listed there), EXXSphGenerator's contraction chain.
 """
 import itertools
 import os
@@ -426,7 +433,7 @@ def replay_eval_xc():
 
 
 # ------------------------------------------------------------------ integrator accumulation
-def unit_integrator(fname):
+def unit_integrator(fname, has_sdmx=False):
     def run(ctx):
         from contracts import c09
         it = ctx.interp
@@ -439,7 +446,7 @@ def unit_integrator(fname):
         uks = "uks" in fname
         dm = np.stack([sym_array("dmA", (nao, nao)), sym_array("dmC", (nao, nao))]) if uks else sym_array("dmA", (nao, nao))
         try:
-            nelec, excsum, vmat, gh = c09.run_integrator(it, mod, fname, dm.copy(), has_sdmx=False)
+            nelec, excsum, vmat, gh = c09.run_integrator(it, mod, fname, dm.copy(), has_sdmx=has_sdmx)
         except Unsupported as e:
             ctx.undecided("%s accumulation" % fname, str(e), fq)
             return
@@ -469,10 +476,312 @@ def unit_integrator(fname):
         nelec = np.asarray(nelec, dtype=object).reshape(-1)
         for s in range(2 if uks else 1):
             ctx.equal("%s nelec[%d] = sum over blocks and points of w * rho" % (fname, s), [], nelec[s], want_n[s], fq)
-        ctx.equal("%s excsum = sum w * rho_total * exc" % fname, [], np.asarray(excsum, dtype=object).reshape(-1)[0], want_e, fq)
+        if not has_sdmx:
+            # (with SDMX features the abstract energy density has further arguments; the accumulation itself is the same code path)
+            ctx.equal("%s excsum = sum w * rho_total * exc" % fname, [], np.asarray(excsum, dtype=object).reshape(-1)[0], want_e, fq)
         vm = np.asarray(vmat, dtype=object)
         ctx.holds("%s vmat shape" % fname, vm.shape == ((2, nao, nao) if uks else (nao, nao)), str(vm.shape), fq)
+        # composition of vmat from the callee contracts: every contraction of w * vxc (contract_wv's first output) and every SDMX potential matrix enters through the
+        # hermitian sum M + M^T (they are built with the 1/2 convention: contract_wv, sdmx-plan/*), the kinetic part (contract_wv's second output) enters once
+        if vm.shape == ((2, nao, nao) if uks else (nao, nao)):
+            mats = vm.reshape(-1, nao, nao)
+            roots = {}
+            for kind, (rid, slot), idx, term in gh.contrib:
+                roots.setdefault((rid, kind == "cwv1"), set()).add(slot)
+            ok_slots = all(sl <= set(range(mats.shape[0])) for sl in roots.values())
+            ctx.holds("%s every contraction is accumulated into one of the %d result matrices" % (fname, mats.shape[0]), ok_slots and len(gh.contrib) > 0, "%s" % {k: sorted(v) for k, v in roots.items()}, fq)
+            if ok_slots:
+                for s_ in range(mats.shape[0]):
+                    for u_ in range(nao):
+                        for v_ in range(nao):
+                            want = tm.ZERO
+                            for kind, (rid, slot), idx, term in gh.contrib:
+                                if slot != s_:
+                                    continue
+                                if kind == "cwv1":
+                                    want = want + (term if idx == (u_, v_) else tm.ZERO)
+                                else:
+                                    want = want + (term if idx == (u_, v_) else tm.ZERO) + (term if idx == (v_, u_) else tm.ZERO)
+                            ctx.equal("%s%s vmat[%d][%d,%d] = hermitian sum of the (w*vxc, SDMX) contractions + kinetic contraction, over all blocks" % (fname, "+sdmx" if has_sdmx else "", s_, u_, v_),
+                                      [], mats[s_, u_, v_], want, fq)
         ctx.canary("%s canary" % fname, [], nelec[0], want_n[0] + 1)
+    return run
+
+
+def unit_contract_wv(ncomp):
+    """CiderNumInt.contract_wv + the integrators' tail (hermitian sum of its first output, plus its second output): together they must be the derivative of
+    sum_g sum_c wv_c[g] * rho_c[g]  with respect to the density matrix, for  rho_0 = sum_uv ao_u P_uv ao_v,  rho_x = sum_uv (d_x ao_u ao_v + ao_u d_x ao_v) P_uv,
+    tau = 1/2 sum_x sum_uv d_x ao_u P_uv d_x ao_v  (the definitions PySCF's eval_rho implements for hermitian P).  Real contract_wv and the module's own
+    _tau_dot_sparse executed; PySCF's _scale_ao_sparse / _dot_ao_ao_sparse by the dense meaning their docstrings state (einsum('xgi,xg->gi'), out += bra^T ket)."""
+    def run(ctx):
+        it = ctx.interp
+
+        def scale(interp, ao, wv, mask, ao_loc, out=None):
+            ao, wv = np.asarray(ao, dtype=object), np.asarray(wv, dtype=object)
+            return np.einsum("xgi,xg->gi", ao, wv) if ao.ndim == 3 else ao * wv[:, None]
+
+        def dot(interp, ao1, ao2, wv, nbins, mask, pair_mask, ao_loc, hermi=0, out=None):
+            r = np.asarray(ao1, dtype=object).T.dot(np.asarray(ao2, dtype=object))
+            if out is None:
+                return r
+            out[...] = out + r
+            return out
+        it.externals["pyscf.dft.numint._scale_ao_sparse"] = scale
+        it.externals["pyscf.dft.numint._dot_ao_ao_sparse"] = dot
+        mod = it.load_module(NMOD)
+        fq = [NMOD + ":CiderNumInt.contract_wv", NMOD + ":_tau_dot_sparse"]
+        ng, nao = NS, 2
+        ao = sym_array("ao", (4, ng, nao))
+        wv0 = sym_array("wv", (ncomp, ng))
+        wv = wv0.copy()
+        vmat = np.full((nao, nao), tm.ZERO, dtype=object)
+        v1 = np.full((nao, nao), tm.ZERO, dtype=object)
+        ni = Obj(mod.ns["CiderNumInt"])
+        tag = "contract_wv[%s]" % ("MGGA" if ncomp == 5 else "GGA")
+        try:
+            ret = it.call_method(ni, "contract_wv", [ao, wv, 10, "mask", "pair_mask", np.arange(nao + 1)], {"vmats": (vmat, v1)})
+            (M, V1), _ = ret
+        except (Unsupported, PyRaise) as e:
+            ctx.undecided("%s runs" % tag, str(e)[:200], fq)
+            return
+        M, V1 = np.asarray(M, dtype=object), np.asarray(V1 if V1 is not None else v1, dtype=object)
+        ctx.holds("%s accumulates into the matrices it was handed" % tag, M is vmat or np.shares_memory(M, vmat), "", fq)
+        for u in range(nao):
+            for v in range(nao):
+                want = tm.mk_add(*[wv0[0, g] * ao[0, g, u] * ao[0, g, v] for g in range(ng)])
+                want = want + tm.mk_add(*[wv0[x, g] * (ao[x, g, u] * ao[0, g, v] + ao[0, g, u] * ao[x, g, v]) for x in (1, 2, 3) for g in range(ng)])
+                if ncomp == 5:
+                    want = want + tm.mk_add(*[Q(1, 2) * wv0[4, g] * ao[x, g, u] * ao[x, g, v] for x in (1, 2, 3) for g in range(ng)])
+                got = tm.lift(M[u, v]) + tm.lift(M[v, u]) + tm.lift(V1[u, v])
+                ctx.equal("%s: (M + M^T + v1)[%d,%d] = d(sum_c wv_c rho_c)/dP[%d,%d]" % (tag, u, v, u, v), [], got, want, fq)
+        ctx.canary("%s canary (without the 1/2 on the density component)" % tag, [], tm.lift(M[0, 0]) + tm.lift(M[0, 0]) + tm.lift(V1[0, 0]),
+                   tm.mk_add(*[2 * wv0[0, g] * ao[0, g, 0] * ao[0, g, 0] for g in range(ng)]))
+    return run
+
+
+def unit_sdmx_plan_potential(clsname, n0, n1, nspin):
+    """SDMX plans between EXXSphGenerator's contractions and the model: the features are quadratic in the projected density matrix p_vag, and get_vxc must return
+    HALF the derivative of sum_ig vxc_ig * feat_ig with respect to p_vag — EXXSphGenerator.get_vxc_ adds the (non-symmetric) matrix built from it to vmat and
+    nr_rks / nr_uks then form vmat + vmat^T (lib.hermi_sum, numint.py), which supplies the other half for a symmetric density matrix.
+    Real get_features / get_vxc executed with the generator's own calling convention (intermediates filled by get_features, handed to get_vxc); fit matrices /
+    weights symbolic; pyscf.lib.dot / einsum by their numpy meaning."""
+    def run(ctx):
+        it = ctx.interp
+        pm = it.load_module(PMOD)
+        it.externals["pyscf.lib.dot"] = lambda interp, a, b, *r, **k: np.asarray(a, dtype=object).dot(np.asarray(b, dtype=object))
+        it.externals["pyscf.lib.einsum"] = lambda interp, spec, *ops, **k: np.einsum(spec, *[np.asarray(o, dtype=object) for o in ops])
+        fq = [PMOD + ":%s.get_vxc" % ("SDMXBasePlan" if clsname != "SDMXIntPlan" else clsname), PMOD + ":%s.get_features" % ("SDMXBasePlan" if clsname != "SDMXIntPlan" else clsname)]
+        na, ng = 2, NS
+        plan = Obj(pm.ns[clsname])
+        st = Obj(ClassV("_SDMXSettings", [], pm))
+        st.fields.update({"nfeat": n0 + n1, "n1terms": n1, "pows": list(range(n0)), "ndterms": 0})
+        plan.fields.update({"settings": st, "nspin": nspin, "nalpha": na})
+        if clsname == "SDMXIntPlan":
+            plan.fields.update({"wt_dict": [sym_array("wt%d" % k, (na,)) for k in range(n0 + n1)], "_num_l0_feat": n0, "_num_l1_feat": n1})
+            l0tmp = np.full((na, ng), tm.ZERO, dtype=object)
+            l1tmp = np.full((3, na, ng), tm.ZERO, dtype=object)
+        else:
+            plan.fields.update({"fit_matrices": [sym_array("F%d" % k, (na, na)) for k in range(n0 + n1)]})
+            l0tmp = np.full((n0, na, ng), tm.ZERO, dtype=object)
+            l1tmp = np.full((n1, 3, na, ng), tm.ZERO, dtype=object)
+        tag = "%s[n0=%d,n1=%d,nspin=%d]" % (clsname, n0, n1, nspin)
+        p_vag = sym_array("p", (4 if n1 else 1, na, ng))
+        vxc = sym_array("v", (n0 + n1, ng))
+        try:
+            feat = np.asarray(it.call_method(plan, "get_features", [p_vag.copy()], {"out": np.full((n0 + n1, ng), tm.ZERO, dtype=object), "l0tmp": l0tmp, "l1tmp": l1tmp}), dtype=object)
+            out = np.asarray(it.call_method(plan, "get_vxc", [vxc.copy(), l0tmp], {"l1tmp": l1tmp}), dtype=object)
+        except (Unsupported, PyRaise) as e:
+            ctx.undecided("%s runs" % tag, str(e)[:200], fq)
+            return
+        ctx.holds("%s: get_vxc returns one block per component of p_vag" % tag, out.shape == p_vag.shape, "%s vs %s" % (out.shape, p_vag.shape), fq)
+        if out.shape != p_vag.shape:
+            return
+        E = tm.mk_add(*[tm.lift(vxc[i, g]) * tm.lift(feat[i, g]) for i in range(n0 + n1) for g in range(ng)])
+        for idx in np.ndindex(*p_vag.shape):
+            ctx.equal("%s: 2 * get_vxc%s = d(sum vxc * feat)/d p_vag%s" % (tag, list(idx), list(idx)), [], 2 * tm.lift(out[idx]), tm.diff(E, p_vag[idx]), fq,
+                      replay=replay_sdmx_plan_potential(clsname, n0, n1, nspin))
+        ctx.canary("%s canary (the full derivative instead of half)" % tag, [], tm.lift(out[(0, 0, 0)]), tm.diff(E, p_vag[(0, 0, 0)]))
+    return run
+
+
+def replay_sdmx_plan_potential(clsname, n0, n1, nspin):
+    def replay(wit):
+        from pyvc import native
+        native.install_shim()
+        import ciderpress.dft.plans as P
+        cls = getattr(P, clsname)
+        plan = cls.__new__(cls)
+        rng = np.random.RandomState(2)
+        na, ng = 3, 4
+        plan.settings = type("S", (), {"nfeat": n0 + n1, "n1terms": n1, "pows": list(range(n0)), "ndterms": 0})()
+        plan.nspin, plan.nalpha = nspin, na
+        if clsname == "SDMXIntPlan":
+            plan.wt_dict = [rng.rand(na) for _ in range(n0 + n1)]
+            plan._num_l0_feat, plan._num_l1_feat = n0, n1
+            mk = lambda: (np.zeros((na, ng)), np.zeros((3, na, ng)))
+        else:
+            plan.fit_matrices = [rng.rand(na, na) for _ in range(n0 + n1)]
+            mk = lambda: (np.zeros((n0, na, ng)), np.zeros((n1, 3, na, ng)))
+        p = rng.rand(4 if n1 else 1, na, ng)
+        v = rng.rand(n0 + n1, ng)
+        l0, l1 = mk()
+        plan.get_features(p.copy(), l0tmp=l0, l1tmp=l1)
+        out = plan.get_vxc(v, l0, l1tmp=l1)
+        worst, h = 0.0, 1e-6
+        for idx in np.ndindex(*p.shape):
+            e = []
+            for sgn in (1, -1):
+                q = p.copy()
+                q[idx] += sgn * h
+                a, b = mk()
+                e.append(float((v * plan.get_features(q, l0tmp=a, l1tmp=b)).sum()))
+            worst = max(worst, abs(2 * out[idx] - (e[0] - e[1]) / (2 * h)))
+        return {"reproduced": bool(worst > 1e-5), "max |2 get_vxc - finite difference|": worst}
+    return replay
+
+
+SMOD = "ciderpress.pyscf.sdmx"
+
+
+def unit_sdmx_generator(n0, n1, batch=False):
+    """EXXSphGenerator.get_features / get_vxc_ (the SDMX feature generator between the integrators and the SDMX plan): with E = sum_ig vgrid[i,g] * feat[i,g] as a
+    function of the density matrix, the matrix M that get_vxc_ adds to vmat satisfies  M + M^T = (G + G^T) / 2,  G = dE/dP entry by entry — the hermitian sum of the
+    integrators then gives the derivative for symmetric P.  Real get_features, get_vxc_, _contract_ao_to_bas(_helper/_bwd), _eval_crho_potential and the real SDMX plan are
+    executed (buffers, caches, transposes); PySCF's _dot_ao_dm / _dot_ao_ao / _scale_ao / lib.einsum by their dense meaning; the C contractions by contracts:
+    SDMXcontract_ao_to_bas(_l1) overwrites b0 with A c0, the _bwd routines add A^T b0 (one abstract tensor A; the C pairs are C05 pair/*), and
+    contract_shl_to_alpha_l1 / _bwd are T(cao) and T(cao)^T of one abstract tensor for the fixed convolved orbitals (assumed: that pair is UNVERIFIED at C level)."""
+    def run(ctx):
+        it = ctx.interp
+        pm = it.load_module(PMOD)
+        sm = it.load_module(SMOD)
+        lib_ = sm.ns["libcider"].name
+        ng, nao, nrf, na = NS, 2, 2, 2
+        deriv = 1 if n1 else 0
+        nv = 1 + 6 * deriv
+        ncpa = 4 if n1 else 1
+        A = sym_array("A", (nv, nrf, nao, ng))
+        T = sym_array("T", (ncpa, na, nv, nrf, ng))
+        from pyvc.npmodel import CPtr
+        arr_of = lambda p_: p_.arr if isinstance(p_, CPtr) else p_
+        calls = []
+
+        def ao2bas(bwd):
+            def fn(interp, ngrids, b0, ylm, c0, *rest):
+                b0, c0 = arr_of(b0), arr_of(c0)
+                if b0.ndim == 2:          # the l=0 routines receive the single block b0[0]
+                    b0 = b0[None]
+                calls.append(("bas-bwd" if bwd else "bas-fwd", b0.shape, c0.shape))
+                for v in range(b0.shape[0]):
+                    for r in range(nrf):
+                        for g in range(ng):
+                            if bwd:
+                                for u in range(nao):
+                                    c0[u, g] = c0[u, g] + A[v, r, u, g] * b0[v, r, g]
+                            else:
+                                # the forward routines receive c0 as (ngrids, nao) rows (what _dot_ao_dm returns)
+                                b0[v, r, g] = tm.mk_add(*[A[v, r, u, g] * c0[g, u] for u in range(nao)])
+            return fn
+
+        def shl2alpha(bwd):
+            def fn(interp, ngrids, nalpha, nrf_, tmp, b0, cao):
+                tmp, b0 = arr_of(tmp), arr_of(b0)
+                calls.append(("alpha-bwd" if bwd else "alpha-fwd", tmp.shape, b0.shape))
+                # b0 is (nv, nrf, ngrids) in the forward call and the (nv, ngrids, nrf)-ordered buffer in the backward call (the caller transposes it back)
+                for v in range(nv):
+                    for r in range(nrf):
+                        for g in range(ng):
+                            if bwd:
+                                b0[v, g, r] = tm.mk_add(*[T[c, a, v, r, g] * tmp[c, a, g] for c in range(ncpa) for a in range(na)])
+                if not bwd:
+                    for c in range(ncpa):
+                        for a in range(na):
+                            for g in range(ng):
+                                tmp[c, a, g] = tm.mk_add(*[T[c, a, v, r, g] * b0[v, r, g] for v in range(nv) for r in range(nrf)])
+            return fn
+        ext = {"SDMXcontract_ao_to_bas": ao2bas(False), "SDMXcontract_ao_to_bas_bwd": ao2bas(True), "SDMXcontract_ao_to_bas_l1": ao2bas(False), "SDMXcontract_ao_to_bas_l1_bwd": ao2bas(True),
+               "contract_shl_to_alpha_l1": shl2alpha(False), "contract_shl_to_alpha_l1_bwd": shl2alpha(True)}
+        for k_, v_ in ext.items():
+            it.externals["%s.%s" % (lib_, k_)] = v_
+        it.externals["pyscf.lib.dot"] = lambda interp, a, b, *r, **k: np.asarray(a, dtype=object).dot(np.asarray(b, dtype=object))
+        it.externals["pyscf.lib.einsum"] = lambda interp, spec, *ops, **k: np.einsum(spec, *[np.asarray(o, dtype=object) for o in ops])
+        it.externals["pyscf.dft.numint._dot_ao_dm"] = lambda interp, mol, ao, dm, *r, **k: np.asarray(ao, dtype=object).dot(np.asarray(dm, dtype=object))
+        it.externals["pyscf.dft.numint._dot_ao_ao"] = lambda interp, mol, ao1, ao2, *r, **k: np.asarray(ao1, dtype=object).T.dot(np.asarray(ao2, dtype=object))
+        it.externals["pyscf.dft.numint._scale_ao"] = lambda interp, ao, wv, out=None: (np.einsum("xgi,xg->gi", np.asarray(ao, dtype=object), np.asarray(wv, dtype=object))
+                                                                                        if np.asarray(ao, dtype=object).ndim == 3 else np.asarray(ao, dtype=object) * np.asarray(wv, dtype=object)[:, None])
+        ov = {SMOD + ":_get_ylm_atom_loc": lambda interp, f, args, kwargs: np.array([0, 1], dtype=np.int32), SMOD + ":_get_rf_loc": lambda interp, f, args, kwargs: np.array([0, nrf], dtype=np.int32),
+              SMOD + ":_get_nrf": lambda interp, f, args, kwargs: nrf, SMOD + ":EXXSphGenerator._get_ylm": lambda interp, f, args, kwargs: sym_array("ylm", (ncpa, 1, ng))}
+        it.overrides.update(ov)
+        fq = [SMOD + ":EXXSphGenerator." + n for n in ("get_features", "get_vxc_", "_contract_ao_to_bas", "_contract_ao_to_bas_bwd", "_contract_ao_to_bas_helper", "_eval_crho_potential", "has_l1", "deriv")] + \
+             [PMOD + ":SDMXBasePlan.get_features", PMOD + ":SDMXBasePlan.get_vxc"]
+        tag = "EXXSphGenerator[n0=%d,n1=%d]" % (n0, n1)
+        ctx.assume("SDMX generator: C contractions by linear contracts (A / A^T, T / T^T), PySCF dense helpers by their documented meaning; bounded shape (%d grid points, %d orbitals, %d radial functions, %d exponents)" % (ng, nao, nrf, na))
+        try:
+            plan = Obj(pm.ns["SDMXPlan"])
+            st = Obj(ClassV("_SDMXSettings", [], pm))
+            st.fields.update({"nfeat": n0 + n1, "n1terms": n1, "pows": list(range(n0)), "ndterms": 0})
+            plan.fields.update({"settings": st, "nspin": 1, "nalpha": na, "fit_matrices": [sym_array("F%d" % k, (na, na)) for k in range(n0 + n1)]})
+            mol = Obj(ClassV("_Mol", [], sm))
+            mol.fields.update({"nbas": 1, "natm": 1, "_atm": np.zeros((1, 6), dtype=np.int32), "_bas": np.zeros((1, 8), dtype=np.int32), "_env": sym_array("env", (3,)),
+                               "ao_loc_nr": Builtin("mol.ao_loc_nr", lambda: np.array([0, nao], dtype=np.int32)), "nao_nr": Builtin("mol.nao_nr", lambda: nao),
+                               "atom_coords": Builtin("mol.atom_coords", lambda unit=None: sym_array("Ratm", (1, 3)))})
+            gen = Obj(sm.ns["EXXSphGenerator"])
+            gen.fields.update({"plan": plan, "_cached_ao_data": None, "_ylm_buf": None})
+            dm = sym_array("P", (nao, nao))
+            ao = sym_array("ao", (ng, nao))
+            cao = sym_array("cao", (2 * na if n1 else na, ng, nrf))
+            coords = sym_array("xyz", (ng, 3))
+            it.hyps = []
+            feat = np.asarray(it.call_method(gen, "get_features", [dm.copy(), mol, coords], {"ao": ao, "cao": cao}), dtype=object)
+            vgrid = sym_array("vg", (n0 + n1, ng))
+            M = np.full((nao, nao), tm.ZERO, dtype=object)
+            it.call_method(gen, "get_vxc_", [M, vgrid.copy()])
+        except (Unsupported, PyRaise) as e:
+            ctx.undecided("%s runs" % tag, str(e)[:300], fq)
+            return
+        finally:
+            for k_ in ext:
+                it.externals.pop("%s.%s" % (lib_, k_), None)
+            for k_ in ov:
+                it.overrides.pop(k_, None)
+        ctx.holds("%s: features of shape (nfeat, ngrids); forward and backward contractions both called" % tag,
+                  feat.shape == (n0 + n1, ng) and any(c[0] == "bas-fwd" for c in calls) and any(c[0] == "bas-bwd" for c in calls), "%s %s" % (feat.shape, calls), fq)
+        uninit = [u.args[0] for x in list(M.reshape(-1)) + list(feat.reshape(-1)) for u in tm.free_vars(tm.lift(x)) if u.args[0].startswith("uninit!")]
+        ctx.holds("%s: features and potential do not depend on uninitialised buffer contents" % tag, not uninit, "%s" % uninit[:3], fq)
+        E = tm.mk_add(*[tm.lift(vgrid[i, g]) * tm.lift(feat[i, g]) for i in range(n0 + n1) for g in range(ng)])
+        for u in range(nao):
+            for v in range(u, nao):
+                ctx.equal("%s: (M + M^T)[%d,%d] = (dE/dP[%d,%d] + dE/dP[%d,%d]) / 2" % (tag, u, v, u, v, v, u), [], tm.lift(M[u, v]) + tm.lift(M[v, u]),
+                          Q(1, 2) * (tm.diff(E, dm[u, v]) + tm.diff(E, dm[v, u])), fq)
+        ctx.canary("%s canary (full instead of half derivative)" % tag, [], tm.lift(M[0, 0]), tm.diff(E, dm[0, 0]))
+        if not batch:
+            return
+        # C09: a stacked call gives, slot by slot, what the separate calls give (features and potential), on one generator object after the calls above
+        for k_, v_ in ext.items():
+            it.externals["%s.%s" % (lib_, k_)] = v_
+        it.overrides.update(ov)
+        try:
+            dm2 = sym_array("Pb", (nao, nao))
+            f2 = np.asarray(it.call_method(gen, "get_features", [dm2.copy(), mol, coords], {"ao": ao, "cao": cao}), dtype=object)
+            M2 = np.full((nao, nao), tm.ZERO, dtype=object)
+            it.call_method(gen, "get_vxc_", [M2, vgrid.copy()])
+            fb = np.asarray(it.call_method(gen, "get_features", [np.stack([dm, dm2]), mol, coords], {"ao": ao, "cao": cao}), dtype=object)
+            Mb = np.full((2, nao, nao), tm.ZERO, dtype=object)
+            it.call_method(gen, "get_vxc_", [Mb, np.stack([vgrid, vgrid])])
+        except (Unsupported, PyRaise) as e:
+            ctx.undecided("%s batch runs" % tag, str(e)[:300], fq)
+            return
+        finally:
+            for k_ in ext:
+                it.externals.pop("%s.%s" % (lib_, k_), None)
+            for k_ in ov:
+                it.overrides.pop(k_, None)
+        ctx.holds("%s batch: stacked features have one slot per density matrix" % tag, fb.shape == (2,) + feat.shape, str(fb.shape), fq)
+        if fb.shape == (2,) + feat.shape:
+            for k, (fs, Ms) in enumerate(((feat, M), (f2, M2))):
+                for idx in np.ndindex(*feat.shape):
+                    ctx.equal("%s batch slot %d: feature%s equals the separate call" % (tag, k, list(idx)), [], fb[k][idx], fs[idx], fq)
+                for idx in np.ndindex(nao, nao):
+                    ctx.equal("%s batch slot %d: potential matrix%s equals the separate call" % (tag, k, list(idx)), [], Mb[k][idx], Ms[idx], fq)
     return run
 
 
@@ -489,10 +798,25 @@ def units():
         for kind in ("MappedXC", "MappedXC2"):
             for fams in (("sl",), ("sl", "nldf"), ("sl", "nldf", "sdmx")):
                 u.append(("eval_xc/nspin%d/%s/%s" % (nspin, kind, "+".join(fams)), unit_eval_xc(nspin, kind, fams)))
+    for ncomp in (4, 5):
+        u.append(("contract_wv/%d" % ncomp, unit_contract_wv(ncomp)))
     for fn in ("nr_rks", "nr_uks"):
         u.append(("integrator/" + fn, unit_integrator(fn)))
+        u.append(("integrator-sdmx/" + fn, unit_integrator(fn, has_sdmx=True)))
+        u.append(("integrator-nldf/" + fn + "_nldf", unit_integrator(fn + "_nldf", has_sdmx=True)))
+    for clsname, n0, n1, nspin in (("SDMXPlan", 2, 0, 1), ("SDMXPlan", 1, 1, 2), ("SDMXPlan", 2, 2, 1), ("SDMXIntPlan", 1, 1, 1), ("SDMXIntPlan", 2, 0, 2)):
+        u.append(("sdmx-plan/%s/n0_%d_n1_%d_nspin%d" % (clsname, n0, n1, nspin), unit_sdmx_plan_potential(clsname, n0, n1, nspin)))
+    for n0, n1 in ((1, 0), (2, 0), (1, 1)):
+        u.append(("sdmx-generator/n0_%d_n1_%d" % (n0, n1), unit_sdmx_generator(n0, n1)))
     from contracts import c05
     u.append(("sdmx-adjoint", c05.unit_pair(c05.PAIRS[1])))
+    # the reverse interpolation pass is the transpose of the forward pass (Python chain of LCAOInterpolator around the spline kernels)
+    for onsite in (False, True):
+        u.append(("interp-chain/onsite_%s" % onsite, c05.unit_interp_chain(onsite)))
+    for n0, n1 in ((1, 1), (0, 2)):
+        u.append(("spline-chain/n0_%d_n1_%d" % (n0, n1), c05.unit_spline_chain(n0, n1)))
+    for n0, n1, onsite in ((1, 1, True), (1, 1, False)):
+        u.append(("direct-chain/n0_%d_n1_%d_onsite_%s" % (n0, n1, onsite), c05.unit_direct_chain(n0, n1, onsite)))
     return u
 
 
@@ -505,7 +829,8 @@ EXPLANATION = (
     "(contract_wv's callee), libxc, the convolution integrals / interpolator projections beyond the pairs of C05, EXXSphGenerator.")
 TRUSTED = [
     "A1 reals; A2: the 1e-16 regulariser in exc_ml / (rho + 1e-16) treated as 0; A3/A4 numpy/Python model",
-    "assumed links: PySCF eval_ao / eval_rho / _dot_ao_* (contract_wv), libxc, LCAO convolution chain beyond C05's pairs, EXXSphGenerator, FracLaplPlan (not under contract here)",
+    "assumed links: PySCF eval_ao / eval_rho and the dense meaning of _scale_ao_sparse / _dot_ao_ao_sparse (as documented there), libxc, the C collaborators of the LCAO chains beyond C05's pairs (abstract matrices in interp-chain / spline-chain / direct-chain), the C contractions inside EXXSphGenerator (linear contracts in sdmx-generator/*; contract_shl_to_alpha_l1 pair UNVERIFIED at C level), FracLaplPlan",
+    "bounded shapes: the interpolator chains, contract_wv and the SDMX plan units run on fixed small array shapes with every entry symbolic",
     "NLDF generator: version k (its own coefficient entry point cider_coefs_vk1_*) and the ij/i versions with rho_mult='expnt' are not run here (cost); versions j (both rho_mult, GGA/MGGA), i, ij are",
     "callee contracts: normaliser list (C12), model wrappers (C04), coefficient routine dp = dp/da (engine C in C04/C11 for the kernels; plan harness contract)",
 ]
